@@ -56,7 +56,7 @@ def gk_common_information(dist, rvs=None, crvs=None, rv_mode=None):
     outcomes, pmf = zip(*dist.zipped(mode='patoms'))
     # The GK-common information is sensitive to zeros in the sample space.
     # Here, we make sure to remove them.
-    d = Distribution(outcomes, pmf, sample_space=outcomes)
+    d = Distribution(outcomes, pmf, sample_space=outcomes, base=dist.get_base())
     d.set_rv_names(dist.get_rv_names())
 
     d2 = insert_meet(d, -1, rvs, rv_mode=rv_mode)
